@@ -84,7 +84,8 @@ func rawAttrs(m pcommon.Map) string {
 }
 
 // one Coq term: (id cells, resource id cells, scope id cells, resource attr rows, scope attr rows, item attr rows,
-//                [(resource attrs, scope attrs, item attrs)] as decoded, in row order)
+//
+//	[(resource attrs, scope attrs, item attrs)] as decoded, in row order)
 func tableCase(recs []*obsRecord, itemAttrsType int32, decoded [][3]string) (string, bool) {
 	if len(recs) == 0 {
 		return "", false
@@ -132,6 +133,78 @@ func decodedTraces(td ptrace.Traces) [][3]string {
 	return out
 }
 
+// per span (row order of the decoded batch): events as (name, attrs), links as (trace id, attrs)
+func decodedChildren(td ptrace.Traces) (evs, lks [][]string) {
+	for i := 0; i < td.ResourceSpans().Len(); i++ {
+		rs := td.ResourceSpans().At(i)
+		for j := 0; j < rs.ScopeSpans().Len(); j++ {
+			ss := rs.ScopeSpans().At(j)
+			for k := 0; k < ss.Spans().Len(); k++ {
+				sp := ss.Spans().At(k)
+				var e, l []string
+				for x := 0; x < sp.Events().Len(); x++ {
+					ev := sp.Events().At(x)
+					e = append(e, fmt.Sprintf("(%s, %s)", coqBytes(ev.Name()), rawAttrs(ev.Attributes())))
+				}
+				for x := 0; x < sp.Links().Len(); x++ {
+					lk := sp.Links().At(x)
+					tid := lk.TraceID()
+					l = append(l, fmt.Sprintf("(%s, %s)", coqBytes(string(tid[:])), rawAttrs(lk.Attributes())))
+				}
+				evs = append(evs, e)
+				lks = append(lks, l)
+			}
+		}
+	}
+	return
+}
+
+// child tables of the span table: (span id cells, [(id cell, group key, parent cell)] of the child table, its attribute rows
+// (32-bit parents), per span the children the real consumer attached)
+func childCase(recs []*obsRecord, childType, attrsType int32, keyCol string, decoded [][]string) (string, bool) {
+	if len(recs) == 0 {
+		return "", false
+	}
+	main := recs[0].Table
+	if len(decoded) != len(main.Rows) {
+		return "", false
+	}
+	var ids []string
+	for _, row := range main.Rows {
+		ids = append(ids, optCell(row["id"]))
+	}
+	rows, arows := "[]", "[]"
+	for _, r := range recs[1:] {
+		switch int32(r.PType) {
+		case childType:
+			var rs []string
+			for _, row := range r.Table.Rows {
+				key := ""
+				switch k := row[keyCol].(type) {
+				case string:
+					key = k
+				case []byte:
+					key = string(k)
+				}
+				p, _ := u64(row["parent_id"])
+				rs = append(rs, fmt.Sprintf("(%s, %s, %d)", optCell(row["id"]), coqBytes(key), p))
+			}
+			rows = "[" + strings.Join(rs, "; ") + "]"
+		case attrsType:
+			s, ok := attrRowsCoq(r.Table)
+			if !ok {
+				return "", false
+			}
+			arows = s
+		}
+	}
+	var dec []string
+	for _, d := range decoded {
+		dec = append(dec, "["+strings.Join(d, "; ")+"]")
+	}
+	return fmt.Sprintf("([%s], %s, %s,\n   [%s])", strings.Join(ids, ";"), rows, arows, strings.Join(dec, "; ")), true
+}
+
 func decodedLogs(ld plog.Logs) [][3]string {
 	var out [][3]string
 	for i := 0; i < ld.ResourceLogs().Len(); i++ {
@@ -171,4 +244,35 @@ Definition table_check (c : tcase) : bool :=
   list_eqb (fun a b => entry_eqb (fst a) (fst b) && N.eqb (snd a) (snd b)) (attrs_enc W16 (attrs_dec W16 irows)) irows.
 Definition table_mismatch := Eval vm_compute in failing table_check table_cases.
 Print table_mismatch.
+`
+
+const childCheckCoq = `(* events and links: the child table's parent ids are group-delta encoded on the event name / link trace id (16-bit), its own
+   ids delta encoded (nullable), its attributes stored under those ids (32-bit parents).  From the real tables the model
+   decodes which children belong to which span and with which attributes; compared with what the real consumer attached. *)
+Definition W32 : N := 4294967296.
+Definition bytes_eqb (a b : bytes) : bool := list_eqb N.eqb a b.
+Definition ccase := (list (option N) * list (option N * bytes * N) * list (akey * N) * list (list (bytes * list (bytes * value))))%type.
+Definition child_eqb (a b : bytes * list (bytes * value)) : bool := bytes_eqb (fst a) (fst b) && perm_eqb entry_eqb (snd a) (snd b).
+Definition child_check (c : ccase) : bool :=
+  let '(ids, rows, arows, dec) := c in
+  let ids' := id_dec W16 0 ids in
+  let cids := id_dec W32 0 (map (fun r => fst (fst r)) rows) in
+  let parents := gd_dec W16 bytes bytes_eqb None (map (fun r => (snd (fst r), snd r)) rows) in
+  let ast := attrs_store (attrs_dec W32 arows) in
+  let children := combine parents cids in      (* ((key, parent), child id) *)
+  Nat.eqb (length ids') (length dec) &&
+  forallb (fun r : option N * list (bytes * list (bytes * value)) =>
+             let expected := match fst r with
+                             | Some i => map (fun ch => (fst (fst ch), lookup_attrs ast (snd ch)))
+                                             (filter (fun ch => N.eqb (snd (fst ch)) i) children)
+                             | None => []
+                             end in
+             perm_eqb child_eqb expected (snd r)) (combine ids' dec) &&
+  (* re-encoding the decoded parents reproduces the real parent column *)
+  list_eqb (fun a b : bytes * N => bytes_eqb (fst a) (fst b) && N.eqb (snd a) (snd b))
+           (gd_enc W16 bytes bytes_eqb None parents) (map (fun r => (snd (fst r), snd r)) rows).
+Definition event_mismatch := Eval vm_compute in failing child_check event_cases.
+Definition link_mismatch := Eval vm_compute in failing child_check link_cases.
+Print event_mismatch.
+Print link_mismatch.
 `
